@@ -61,6 +61,15 @@ FILTER_TOKENS = set(  # noqa: C405
 )
 
 
+def _describe(err: Exception) -> str:
+    """Return the message of _err_, which might not have a string representation."""
+    try:
+        return str(err)
+    except ValueError:
+        # A `KeyError` for an integer too big to convert, for example.
+        return type(err).__name__
+
+
 class FilteredExpression(Expression):
     """An expression for the built-in `assign` tag and output statement."""
 
@@ -279,7 +288,9 @@ class Filter:
             # A value the filter can't work with: NaN or infinity where a number is
             # needed, an integer too big to convert, bytes that are not text, a
             # timestamp the platform can't represent, ...
-            raise FilterValueError(f"{self.name}: {err}", token=self.token) from err
+            raise FilterValueError(
+                f"{self.name}: {_describe(err)}", token=self.token
+            ) from err
 
     async def evaluate_async(self, left: object, context: RenderContext) -> object:
         func = context.filter(self.name, token=self.token)
@@ -298,7 +309,9 @@ class Filter:
             # A value the filter can't work with: NaN or infinity where a number is
             # needed, an integer too big to convert, bytes that are not text, a
             # timestamp the platform can't represent, ...
-            raise FilterValueError(f"{self.name}: {err}", token=self.token) from err
+            raise FilterValueError(
+                f"{self.name}: {_describe(err)}", token=self.token
+            ) from err
 
     def evaluate_args(
         self, context: RenderContext
